@@ -170,8 +170,26 @@ def no_reference_cases(tier):
     yield "noref/dup-nested", skeleton(parts + [["contact", None, {}, PARTY_VARIANTS[0](8)]]), "duplicate"
 
 
+def extra_cases(tier):
+    # two references nodes under ONE referencing element (each is replaced in place, in order)
+    for v0, v1 in ((0, 1), (1, 3), (2, 0), (3, 2)):
+        two = ["contact", None, {}, [["references", "id0", {}, []], ["references", "id1", {}, []]]]
+        parts = [referenced("creator", 0, v0), referenced("metadataProvider", 1, v1), two]
+        yield f"two-refs-one-parent/{v0}{v1}", skeleton(parts), None
+        two_role = ["associatedParty", None, {}, [["references", "id0", {}, []], ["references", "id1", {}, []], ["role", "r", {}, []]]]
+        parts = [referenced("associatedParty", 0, v0, with_role=True), referenced("associatedParty", 1, v1, with_role=True), two_role]
+        yield f"two-refs-one-parent-role/{v0}{v1}", skeleton(parts), None
+    # the duplicated id sits on a referencing element itself
+    parts = [referenced("creator", 0, 0), ["contact", None, {"id": "id0"}, [["references", "id0", {}, []]]]]
+    yield "dup/on-referencing-element", skeleton(parts), "duplicate"
+    parts = [["creator", None, {"id": "id0"}, [["references", "id1", {}, []]]], referenced("metadataProvider", 1, 0),
+             referenced("contact", 0, 1)]
+    yield "dup/on-referencing-element-first", skeleton(parts), "duplicate"
+
+
 def all_cases(tier):
     yield from no_reference_cases(tier)
+    yield from extra_cases(tier)
     yield from party_cases(tier)
     yield from role_cases(tier)
     yield from table_cases(tier)
